@@ -98,22 +98,48 @@ class Rat:
         return not self.num
 
     def __eq__(self, o):
-        return Rat._pmul(self.num, o.den) == Rat._pmul(o.num, self.den)
+        if not isinstance(o, Rat):
+            return NotImplemented
+        return _reduce_i(Rat._pmul(self.num, o.den)) == _reduce_i(Rat._pmul(o.num, self.den))
+
+    __hash__ = None
 
     def __repr__(self):
         return f"Rat({self.num}/{self.den})"
+
+
+IMAG = "\u2148"  # the imaginary unit as an indeterminate; powers are reduced (i*i = -1) when comparing
+
+
+def _reduce_i(poly):
+    out = {}
+    for mono, c in poly.items():
+        p = dict(mono).get(IMAG, 0)
+        if p:
+            rest = tuple((v, k) for v, k in mono if v != IMAG)
+            sign = (1, 1, -1, -1)[p % 4]
+            mono = tuple(sorted(rest + (((IMAG, 1),) if p % 2 else ())))
+            c = c * sign
+        out[mono] = out.get(mono, 0) + c
+    return {k: v for k, v in out.items() if v != 0}
+
+
+def _num(x) -> "Rat":
+    if isinstance(x, complex):
+        return Rat.const(Fraction(x.real)) + Rat.const(Fraction(x.imag)) * Rat.var(IMAG)
+    return Rat.const(Fraction(x))
 
 
 def value(x) -> Rat:
     """Algebraic meaning of an abstract LNode / Python number."""
     if isinstance(x, bool):
         raise AnalysisError("value of bool")
-    if isinstance(x, (int, float)):
-        return Rat.const(Fraction(x))
+    if isinstance(x, (int, float, complex)):
+        return _num(x)
     if isinstance(x, Node):
         c = x.cls
         if c in ("LiteralInt", "LiteralFloat"):
-            return Rat.const(Fraction(x.f["value"]))
+            return _num(x.f["value"])
         if c == "Symbol":
             return Rat.var(x.f["name"])
         if c == "Neg":
@@ -155,6 +181,7 @@ class Interp:
         if self.primary is not None:
             self.lalias = {a for a, t in self.primary.imports.items() if t == LNODES}
         self.classes = classes
+        self.overrides: dict = {}  # name -> _PyCall / value: stubs for callees outside the interpreted modules
         self.depth = 0
         # class-level aliases such as `__truediv__ = __div__`
         self.aliases: dict[tuple[str, str], str] = {}
@@ -302,7 +329,7 @@ class Interp:
             return v
         if isinstance(v, (int, float)):
             return bool(v)
-        if isinstance(v, (list, tuple, dict, str)):
+        if isinstance(v, (list, tuple, dict, str, set, frozenset)):
             return bool(v)
         if v is None:
             return False
@@ -315,6 +342,8 @@ class Interp:
             return list(it)
         if isinstance(it, dict):
             return list(it.keys())
+        if isinstance(it, (set, frozenset)):
+            raise AnalysisError("absint: iteration over a set (order not defined)")
         raise AnalysisError(f"absint: cannot iterate {type(it).__name__}")
 
     # ---- expressions ------------------------------------------------------------------------
@@ -335,6 +364,22 @@ class Interp:
                 }[type(op)]()
             except ZeroDivisionError:
                 raise Raised("ZeroDivisionError")
+        if isinstance(a, Rat) or isinstance(b, Rat):
+            a2 = a if isinstance(a, Rat) else _num(a)
+            b2 = b if isinstance(b, Rat) else _num(b)
+            try:
+                return {ast.Add: lambda: a2 + b2, ast.Sub: lambda: a2 - b2, ast.Mult: lambda: a2 * b2, ast.Div: lambda: a2 / b2}[type(op)]()
+            except ZeroDivisionError:
+                raise Raised("ZeroDivisionError")
+            except KeyError:
+                raise AnalysisError("absint: unsupported operator on symbolic values")
+        if isinstance(a, (set, frozenset)) and isinstance(b, (set, frozenset)):
+            if isinstance(op, ast.BitOr):
+                return a | b
+            if isinstance(op, ast.BitAnd):
+                return a & b
+            if isinstance(op, ast.Sub):
+                return a - b
         if isinstance(a, list) and isinstance(b, list) and isinstance(op, ast.Add):
             return a + b
         if isinstance(a, tuple) and isinstance(b, tuple) and isinstance(op, ast.Add):
@@ -344,6 +389,11 @@ class Interp:
         raise AnalysisError(f"absint: unsupported binop {type(op).__name__} on {type(a).__name__},{type(b).__name__}")
 
     def isinstance_(self, x, target_node, env):
+        if isinstance(x, Rat):
+            names = {n.id for n in ast.walk(target_node) if isinstance(n, ast.Name)} | {n.attr for n in ast.walk(target_node) if isinstance(n, ast.Attribute)}
+            if names == {"Zero"}:
+                return x.is_zero()
+            raise AnalysisError(f"absint: isinstance of a symbolic value against {sorted(names)}")
         targets = []
 
         def flat(t):
@@ -375,6 +425,9 @@ class Interp:
             elif isinstance(x, float):
                 if last in ("float", "Real", "Number"):
                     return True
+            elif isinstance(x, complex):
+                if last in ("complex", "Complex", "Number"):
+                    return True
             elif isinstance(x, str) and last == "str":
                 return True
             elif isinstance(x, list) and last == "list":
@@ -382,6 +435,19 @@ class Interp:
             elif isinstance(x, tuple) and last == "tuple":
                 return True
         return False
+
+    def to_str(self, x):
+        """str(x) as Python would compute it: the class's own __str__/__repr__ when it defines one."""
+        if isinstance(x, Node):
+            for meth in ("__str__", "__repr__"):
+                m = self.find_method(x.cls, meth)
+                if m is not None:
+                    return self.call_func(m.node, [x])
+            raise AnalysisError(f"absint: str() of {x.cls}, which has no __repr__ (the text would contain an address)")
+        if isinstance(x, (list, tuple)):
+            inner = ", ".join(self.to_str(i) if isinstance(i, Node) else repr(i) for i in x)
+            return f"[{inner}]" if isinstance(x, list) else f"({inner}{',' if len(x) == 1 else ''})"
+        return str(x)
 
     def construct(self, cls: str, args, kwargs):
         lc = self.classes[cls]
@@ -400,6 +466,8 @@ class Interp:
         if isinstance(e, ast.Name):
             if e.id in env:
                 return env[e.id]
+            if e.id in self.overrides:
+                return self.overrides[e.id]
             if self.primary is not None and e.id in self.primary.funcs:
                 return self.primary.funcs[e.id]
             if e.id in self.classes:
@@ -409,6 +477,8 @@ class Interp:
                 return f
             if e.id == "defaultdict":
                 return _Builtin("defaultdict")
+            if e.id in ("list", "tuple", "dict", "set", "int", "float", "str", "bool"):
+                return {"list": list, "tuple": tuple, "dict": dict, "set": set, "int": int, "float": float, "str": str, "bool": bool}[e.id]
             if e.id in ("True", "False", "None"):
                 return {"True": True, "False": False, "None": None}[e.id]
             raise AnalysisError(f"absint: unknown name {e.id}")
@@ -449,10 +519,19 @@ class Interp:
                         return self.call_func(m.node, [base])
                     return _Bound(base, m)
                 raise AnalysisError(f"absint: {base.cls} has no attribute {e.attr}")
+            if isinstance(base, (int, float, complex)) and not isinstance(base, bool) and e.attr in ("real", "imag"):
+                return getattr(base, e.attr)
+            if isinstance(base, _Cls):
+                m = self.find_method(base.name, e.attr)
+                if m is not None:
+                    return m
+                raise AnalysisError(f"absint: class {base.name} has no method {e.attr}")
             if isinstance(base, (list, tuple)) and e.attr in ("copy", "index", "append", "extend", "remove"):
                 return _ListMeth(base, e.attr)
             if isinstance(base, dict) and e.attr in ("items", "keys", "values", "get", "setdefault"):
                 return _DictMeth(base, e.attr)
+            if isinstance(base, str) and e.attr in ("replace", "isalnum", "startswith", "endswith", "format", "join", "lower", "upper", "strip", "isidentifier", "split"):
+                return _PyCall(getattr(base, e.attr))
             raise AnalysisError(f"absint: attribute `{ast.unparse(e)}` not modelled")
         if isinstance(e, ast.UnaryOp):
             v = self.expr(e.operand, env)
@@ -526,7 +605,7 @@ class Interp:
                     out += str(v.value)
                 else:
                     x = self.expr(v.value, env)
-                    out += repr(x) if isinstance(x, Node) else str(x)
+                    out += self.to_str(x)
             return out
         if isinstance(e, ast.Dict):
             return {self.expr(k, env): self.expr(v, env) for k, v in zip(e.keys, e.values)}
@@ -554,7 +633,7 @@ class Interp:
             r = a is b or (a is None and b is None)
             return r if isinstance(op, ast.Is) else not r
         if isinstance(op, (ast.In, ast.NotIn)):
-            r = any(self.equal(a, x) for x in self.iterate(b))
+            r = (a in b) if isinstance(b, (set, frozenset)) else any(self.equal(a, x) for x in self.iterate(b))
             return r if isinstance(op, ast.In) else not r
         if isinstance(op, (ast.Eq, ast.NotEq)):
             r = self.equal(a, b)
@@ -600,6 +679,20 @@ class Interp:
         if fn in ("list", "tuple"):
             v = self.iterate(vals[0]) if vals else []
             return list(v) if fn == "list" else tuple(v)
+        if fn in ("set", "frozenset"):
+            if not vals:
+                return set()
+            src = vals[0]
+            return set(src) if isinstance(src, (set, frozenset)) else set(self.iterate(src))
+        if fn == "sorted" and len(vals) == 1 and not kw:
+            src = vals[0]
+            items = list(src) if isinstance(src, (set, frozenset)) else self.iterate(src)
+            try:
+                return sorted(items)
+            except TypeError:
+                raise AnalysisError("absint: sorted() of incomparable items")
+        if fn == "dict" and not vals and not kw:
+            return {}
         if fn in ("int", "float"):
             x = vals[0]
             if isinstance(x, Node):
@@ -632,13 +725,22 @@ class Interp:
             import collections
 
             return collections.defaultdict(list if not e.args or ast.unparse(e.args[0]) == "list" else dict)
+        if fn in ("str", "repr") and len(vals) == 1:
+            return self.to_str(vals[0])
+        if fn == "getattr" and len(vals) in (2, 3):
+            x, name = vals[0], vals[1]
+            if isinstance(x, Node) and (name in x.f):
+                return x.f[name]
+            if len(vals) == 3:
+                return vals[2]
+            raise Raised("AttributeError")
         if fn == "hasattr":
             x, name = vals
             return isinstance(x, Node) and (name in x.f or name == "dtype")
         if fn == "type":
             return _Cls(vals[0].cls) if isinstance(vals[0], Node) else type(vals[0])
         f = self.expr(e.func, env) if fn is None or fn.split(".")[0] in env or fn in self.classes or fn in self.mod.funcs or "." in (fn or "") \
-            or (self.primary is not None and fn in self.primary.funcs) else None
+            or (self.primary is not None and fn in self.primary.funcs) or fn in self.overrides else None
         if f is None:
             raise AnalysisError(f"absint: unknown callee `{fn}`")
         if isinstance(f, _Cls):
@@ -650,6 +752,8 @@ class Interp:
             for p, v in zip([a.arg for a in f.node.args.args], vals):
                 env2[p] = v
             return self.expr(f.node.body, env2)
+        if isinstance(f, _PyCall):
+            return f.fn(*vals, **kw)
         if isinstance(f, _DictMeth):
             if f.name == "items":
                 return [(k, v) for k, v in f.d.items()]
@@ -714,6 +818,11 @@ class _Lam:
     def __init__(self, node, env):
         self.node = node
         self.env = env
+
+
+class _PyCall:
+    def __init__(self, fn):
+        self.fn = fn
 
 
 class _DictMeth:
